@@ -43,10 +43,21 @@ KNOWN_TYPES = set(lower_ for lower_ in ['text', 'submit', 'radio', 'checkbox', '
                                         'color'])
 
 
-def plan(tier, seed):
+def _plan0(tier, seed):
     n = 96 if tier == 'quick' else 1920
     per = 150 if tier == 'quick' else 350
     return [{'seed': seed * 27011 + i, 'n': per} for i in range(n)]
+
+
+def plan(tier, seed):
+    """... plus the shared 'lazy' units: iselect consumed step by step while the caller edits, between two items, exactly what
+    this property's pseudo-classes depend on (vlib/lazy.py; the rest of the iteration must be what the selector designates on
+    the tree as it is now)."""
+    units = _plan0(tier, seed)
+    themes = ['state', 'range']
+    k = 16 if tier == 'quick' else 160
+    units += [{'kind': 'lazy', 'theme': themes[i % len(themes)], 'seed': seed * 65521 + i, 'n': 60 if tier == 'quick' else 200} for i in range(k)]
+    return units
 
 
 def lowercase_types(tops):
